@@ -304,7 +304,14 @@ def richardson_retry(repo, run):
     # redo may only be cleared explicitly in the branch that grows the step
     clears = [s2 for s2 in walk_no_nested(fn) if isinstance(s2, ast.Assign) and isinstance(s2.targets[0], ast.Name) and s2.targets[0].id == redo_name
               and isinstance(s2.value, ast.Constant)]
-    okc = all(s2.value.value is False and any(isinstance(a, ast.If) and "symplectic" in src(a.test) for a in ancestors_of(s2)) for s2 in clears)
+    def in_symplectic_body(n):
+        child = n
+        for a in ancestors_of(n):
+            if isinstance(a, ast.If) and "symplectic" in src(a.test):
+                return any(child is b or any(child is x for x in ast.walk(b)) for b in a.body)
+            child = a
+        return False
+    okc = all(s2.value.value is False and in_symplectic_body(s2) for s2 in clears)
     run.judged(rid, "redo flag overridden only in the symplectic step-doubling branch (%d place(s))" % len(clears), ok=okc)
     if not okc:
         run.report("C05.5", ITY, clears[0], "the controller's redo flag is overridden outside the symplectic step-selection branch: a rejected step is handed back as accepted")
